@@ -27,13 +27,21 @@ def run(ctx):
     else:
         sub += carriers + ("every history of length 0-4 over the seven calls on any wrapper incl. those of the carrier; plus the bare form over "
                            "every carrier of depth exactly 2 (132 configurations) with every history of length 0-3")
+    sub += ("; construction-time family: every configuration of the two families above that has at least two wrappers x every set of "
+            "wrappers built by a Build step of the history instead of before it (closed upwards, not empty, not all) x every history of "
+            + ("1-3 calls (two wrappers) / 1-2 calls (three wrappers)" if ctx.tier == "quick" else "1-4 calls (two wrappers) / 1-3 calls (three wrappers)")
+            + " over the seven calls on the wrappers built so far, with the Build steps at every possible place after the first call "
+            "(wrappers left unbuilt are built by the epilogue)")
     return driver.finish(
         ctx, "exploration",
         "sequential call histories on real wrapper compositions over counting fake resources, compared call by call with a reference model "
         "of what the statement fixes: (1) no fake's Close is called twice, and it has been called exactly once as soon as the history has "
         "closed any wrapper above it; (2) every Close (or LogClose) after the first Close of the same wrapper object returns nil, also when "
-        "the resource's Close fails; (3) W.Closed() is false while no wrapper of W's chain (ancestors, W, descendants) has been closed and "
-        "true once W.Close() was called - states where only another wrapper of the chain was closed are not asserted; (4) a reader+writer "
+        "the resource's Close fails; (3) W.Closed() is false until W's own Close and true once W.Close() was called: it is asserted false while neither "
+        "W nor a wrapper above W has been closed (an outer Close closes what it holds: not asserted) and no wrapper whose closed flag W "
+        "shares has been closed (a Named*/Simulated/Stream/Buffered wrapper built directly over a Safe* wrapper of its family keeps that "
+        "object as its flag holder; which object holds the flag is observed by identity) - closes of other wrappers BELOW W do not change "
+        "W's answer (clause closed-true-before-own-close; stat:closed_asserted_false_with_only_inner_wrappers_closed); (4) a reader+writer "
         "pair answers false while one half is certainly open and true when both halves are certainly closed. After each history every "
         "wrapper is asked Closed() once more. A panic in any call is a violation signed by its site. Exhaustive part: see "
         "exhaustive_subspace; random part: seeded configurations of depth <=4 (pairs branch, so up to 15 wrappers) with histories of "
@@ -48,13 +56,23 @@ def run(ctx):
         "or a wrapper above it has been closed (closing the carrier along with the stream is allowed, not required). Violations seen in "
         "that situation carry the suffix :over-closed-carrier. Besides the exhaustive carrier family (see exhaustive_subspace) there "
         "are seeded random configurations of depth <=4 in which at least one StreamConnection runs over a wrapper composition of depth "
-        "1-2 (carrier_random_*). A case is one (configuration, history); distinct_nontrivial only keys exhaustive histories of length <=2 and the "
+        "1-2 (carrier_random_*). Construction time: histories may contain Build steps - the wrappers of a `late` set are constructed "
+        "(real constructor, arguments first) at that point of the history instead of before it, i.e. at every point of the life of what "
+        "they wrap: unused, read/written, closed through its own handle, closed with a failing resource close "
+        "(stat:wrappers_built_over_closed_inner_wrapper, wrappers_built_over_inner_wrapper_whose_close_failed, "
+        "wrappers_built_over_read_or_written_inner, closed_asserted_false_on_wrapper_built_over_closed_inner, "
+        "first_close_of_wrapper_built_over_closed_inner); the model knows nothing about construction time. Violations signed by a wrapper "
+        "that was built over an already closed inner wrapper carry the suffix :built-over-closed-inner. Exhaustive part: see "
+        "exhaustive_subspace; random part: configurations of depth <=4 (every second one with carriers), a fresh late set and 2-15 "
+        "steps with interleaved Build steps per history (late_random_*). A case is one (configuration, history); distinct_nontrivial only keys exhaustive histories of length <=2 and the "
         "random ones (the longer exhaustive histories are counted in stat:exhaustive_histories_* and in evaluations).",
         ["sequential histories only: the property quantifies over call sequences, not schedules",
          "the resource of a StreamWrappedConnection is its `wrapped` stream; its `underlying` net.Conn (addresses/deadlines only) is not owned: "
          "outside the carrier families it is a separate plain fake that is observed only; in the carrier families it is a wrapper composition "
          "with its own handle, standing on fakes of its own (never the same fake as the wrapped stream's)",
          "a pair's two halves stand on two different fakes (tree-shaped compositions; no resource shared by two branches)",
-         "the result of the FIRST Close of a wrapper is not asserted (the statement only fixes the repeats)"],
+         "the result of the FIRST Close of a wrapper is not asserted (the statement only fixes the repeats)",
+         "fakes are closed through wrappers only: a wrapper is never built over a bare fake that the harness closed itself (a second Close "
+         "of that fake by the wrapper would be the harness's doing, not a defect)"],
         extra_cov={"exhaustive": False, "exhaustive_subspace": sub},
         min_distinct=1 if ctx.replay else 2)
